@@ -28,6 +28,7 @@ func runC17(c *core.Ctx) {
 	defer rulePutOwnsObject(c)
 	defer ruleIteratorStateFresh(c)
 	defer ruleReadersPure(c)
+	defer ruleAliasHygiene(c, [3]string{"C17-R10", "C17-R11", "C17-R12"}, "pdf/internal/pdftree")
 	c.Check("C17-R1", pk+".node-shapes", "every non-root node is written with /Limits and no root is: the dictionary literals of the leaf/intermediate writers contain Limits, those of the root writers do not", func(o *core.Ob) {
 		pkg := c.Prog.Pkg(pk)
 		nNodes, nRoots := 0, 0
@@ -433,6 +434,14 @@ func mutatesObj(c *core.Ctx, fn *core.Func, root ast.Node, obj types.Object, dep
 // map behind an InMemory tree is edited and the tree is written again.
 func ruleReadersPure(c *core.Ctx) {
 	const pk = "pdf/internal/pdftree"
+	ruleMethodsPure(c, "C17-R9", pk, 4, func(fn *core.Func, recv types.Type) bool {
+		return core.IsNamed(recv, pk, "InMemory") || core.IsNamed(recv, pk, "FromFile")
+	})
+}
+
+// ruleMethodsPure: the selected methods store nothing through their receiver
+// (SSA may-write analysis, including the closures they return).
+func ruleMethodsPure(c *core.Ctx, rule, pk string, floor int, match func(fn *core.Func, recv types.Type) bool) {
 	pkg := c.Prog.Pkg(pk)
 	var ma *core.MutAnalysis
 	n := 0
@@ -442,14 +451,15 @@ func ruleReadersPure(c *core.Ctx) {
 			continue
 		}
 		rt := fn.Info().TypeOf(fn.Decl.Recv.List[0].Type)
-		if !(core.IsNamed(rt, pk, "InMemory") || core.IsNamed(rt, pk, "FromFile")) {
+		if !match(fn, rt) {
 			continue
 		}
 		n++
-		c.Check("C17-R9", fn.Key+"/pure", "the reading-side method stores nothing through its receiver (SSA may-write analysis, including the iterator closures it returns)", func(o *core.Ob) {
+		c.Check(rule, fn.Key+"/pure", "the reading-side method stores nothing through its receiver (SSA may-write analysis, including the iterator closures it returns)", func(o *core.Ob) {
 			if ma == nil {
 				ma = core.NewMutAnalysis(c.Prog)
 				ma.ImplPkgs[core.ModulePath] = true
+				ma.AppendIsWrite = true
 			}
 			sf := ma.S.FuncValue(fn.Obj)
 			if sf == nil || len(sf.Params) == 0 {
@@ -486,6 +496,6 @@ func ruleReadersPure(c *core.Ctx) {
 			anons(sf)
 		})
 	}
-	c.Floor("C17-R9", 4)
+	c.Floor(rule, floor)
 	_ = n
 }
